@@ -90,7 +90,7 @@ func init() {
 		Cases: func(master uint64, tier string) []Case {
 			n := 260
 			if tier == "thorough" {
-				n = 5000
+				n = 100000
 			}
 			return seqCases(master, n, nil)
 		},
@@ -109,7 +109,7 @@ func init() {
 		Cases: func(master uint64, tier string) []Case {
 			n := 200
 			if tier == "thorough" {
-				n = 4000
+				n = 25000
 			}
 			return seqCases(master, n, nil)
 		},
@@ -127,7 +127,7 @@ func init() {
 		Cases: func(master uint64, tier string) []Case {
 			n := 96
 			if tier == "thorough" {
-				n = 2400
+				n = 1600
 			}
 			return seqCases(master, n, nil)
 		},
@@ -144,7 +144,17 @@ func init() {
 			"independently built JWK), commitment equal at wallet, node and reference; on the wire JWK EVERY coordinate bit flipped, leading byte stripped, zero prepended, truncation, " +
 			"empty, wrong crv, swapped coordinates: rejected. distinct_nontrivial = distinct pool keys",
 		Cases: func(master uint64, tier string) []Case {
+			if tier == "thorough" {
+				// a larger pool drawn from the master seed: 60 keys per type plus 12 + 12 leading-zero keys per curve
+				return seqCases(master, 1, func(int) int { return 5*60 + 4*24 })
+			}
 			return seqCases(master, 1, func(int) int { return 62 })
+		},
+		Pool: func(tier string) [3]uint64 {
+			if tier == "thorough" {
+				return [3]uint64{0xC0FFEE + 16, 60, 12}
+			}
+			return DefaultPool
 		},
 		Gen:            func(c Case, pool *Pool) *Plan { return GenJWK(c.Seed, c.Variant, pool) },
 		RequiredProbes: map[string][]string{"quick": {"leading_zero_x0_secp256k1", "leading_zero_y0_secp256k1", "leading_zero_x0_P-256", "leading_zero_x0_P-521"}, "thorough": {"leading_zero_x0_secp256k1", "leading_zero_y0_secp256k1", "leading_zero_x0_P-384", "leading_zero_y0_P-521"}},
